@@ -334,10 +334,23 @@ from leaspy.utils.weighted_tensor import WeightedTensor
 x = {tensor_literal(x, model)}; w = {tensor_literal(w, model)}; nu = {tensor_literal(nu, model)}; rho = {tensor_literal(rho, model)}
 xi = {tensor_literal(xi, model)}; tau = {tensor_literal(tau, model)}
 extra = ({tensor_literal(extra[0], model) if extra else ''}{',' if extra else ''})
-got = {fam.__name__}._nll(WeightedTensor(x, w), nu, rho, xi, tau, *extra).value
-print('nll for early event:', got, 'observed:', w)
-bad = (not bool(torch.isfinite(got).all())) or (bool(w.all()) and bool((got < 1e300).any()))
-sys.exit(1 if bad else 0)
+def check(x, w, nu, rho, xi, tau, extra):
+    got = {fam.__name__}._nll(WeightedTensor(x, w), nu, rho, xi, tau, *extra).value
+    bad = (not bool(torch.isfinite(got).all())) or (bool(w.all()) and bool((got < 1e300).any()))
+    if bad: print('nll for early event:', got, 'observed:', w, 'x', x, 'tau', tau, 'nu', nu, 'rho', rho, 'xi', xi)
+    return bad
+if check(x, w, nu, rho, xi, tau, extra): sys.exit(1)
+# the solver's model interprets the abstracted power function freely: also try the corner points of the early-event region
+# (event exactly at / strictly before the reference time; shape below, at and above 1, integer and not)
+D = torch.float64
+for dt in (0.0, -1.5, -0.25):
+    for r in (0.5, 1.0, 1.5, 2.0, 3.0):
+        for obs in (True, False):
+            for n in (1.0, 3.0):
+                args = (torch.tensor([[70.0 + dt]], dtype=D), torch.tensor([[obs]]), torch.tensor([n], dtype=D), torch.tensor([r], dtype=D),
+                        torch.tensor([[0.2]], dtype=D), torch.tensor([[70.0]], dtype=D), tuple(torch.zeros_like(e) for e in extra))
+                if check(*args): sys.exit(1)
+sys.exit(0)
 """
 
             rec.prove("early:not-nan-not-inf", z3.Implies(early, z3.Not(z3.Or(z3.fpIsNaN(o), z3.fpIsInf(o)))), extra=side, replay=rp, timeout_ms=240000, pins=pins, what="early event gives NaN/inf")
